@@ -59,6 +59,23 @@ def _eligible(var, lam, fn):
     if len(stmts) == 1 and stmts[0].get("k") == "ReturnStmt" and isinstance(stmts[0].get("value"), dict) and len(rets) == 1:
         return "expr"
     if len(rets) == 1 and stmts and stmts[-1] is rets[0] and isinstance(rets[0].get("value"), dict):
+        # [const T v = e;]* return E;  with effect-free initialisers is the expression E[v := e]
+        decls, pure = {}, True
+        for st in stmts[:-1]:
+            if st.get("k") != "DeclStmt":
+                pure = False
+                break
+            for d in st.get("decls", []):
+                if d.get("k") != "Var" or not isinstance(d.get("init"), dict) or not _effect_free_calls_ok(d["init"]) or not (d.get("t", "").startswith("const ") or d.get("t", "").endswith("const")):
+                    pure = False
+                    break
+                decls[d["did"]] = d["init"]
+        if pure and decls and _effect_free_calls_ok(rets[0]["value"]):
+            v = copy.deepcopy(rets[0]["value"])
+            for _ in range(len(decls) + 1):
+                v = _subst(v, decls)
+            lam["body"] = {"k": "CompoundStmt", "l": lam["body"].get("l"), "c": [{"k": "ReturnStmt", "l": rets[0].get("l"), "value": v}]}
+            return "expr"
         return "tail"        # statements followed by one final 'return expr;': inlined where the result is assigned (x = f(...);)
     sel = _as_select(lam)
     if sel is not None:
